@@ -1,4 +1,6 @@
-(* c18 driver.  stdin: one case per line, five '|'-separated fields
+(* c18 driver.  Two kinds of cases: make_title_case on a GIVEN token list (below), and the end-to-end cases
+   U / STR / TOK (C18Str.v: the model lexes, condenses and attaches metadata itself; see further down).
+   Token-list case: stdin one case per line, five '|'-separated fields
      src cps | tokens: s e kind meta ... | chars: c islower n l1..ln m u1..um ... (to_lowercase, to_uppercase) | canon: key > - ; key > = cps ; ... | meta: key > m ; ...
    meta code: 0 = None, otherwise 1 + 2*proper + 4*preposition + 8*determiner.
    stdout: "P" (the model panics), "O cps" (the title-cased hull), "?" (a fact the model asked for was not dumped). *)
